@@ -321,13 +321,28 @@ fn ser_of<T: Canon>(data: &[&str]) -> (String, Vec<String>) {
                     Err(e) => msgs.push(format!("FAIL C04 to_string failed: {}", e)),
                 }
             }
-            format!("ok {}", enc_value(&v))
+            // C14: every integer as the integer of the same mathematical value — the integers of the data and the
+            // integer numbers of the serialized value are the same multiset
+            let ints = |text: &str, pre: &[char]| -> Vec<i128> {
+                let mut v: Vec<i128> = text.split_whitespace().filter(|t| t.len() > 1 && pre.contains(&t.chars().next().unwrap()))
+                    .filter_map(|t| t[1..].parse::<i128>().ok()).collect();
+                v.sort();
+                v
+            };
+            let venc = enc_value(&v);
+            if ints(&want, &['I']) != ints(&venc, &['P', 'M']) {
+                msgs.push(format!("FAIL C14 integers of the data {:?} differ from the integers of the serialized value {:?}", ints(&want, &['I']), ints(&venc, &['P', 'M'])));
+            }
+            format!("ok {}", venc)
         }
         Ok(Err(_)) => "err".into(),
         Err(_) => "panic".into(),
     };
     (res, msgs)
 }
+
+/// registry types whose top level is a sequence or tuple position (C14 rejection clause)
+const SEQ_TUPLE_TYPES: &[&str] = &["vec_opt", "vec_u8", "vec_string", "vec_vec_i32", "set_u32", "set_string", "tup1", "tup2", "tup_nested", "tup_unit", "tup3", "ts2", "nt_vec", "vec_e2", "vec_tup"];
 
 fn de_of<T: Canon>(v: &Value) -> (String, Vec<String>) {
     let mut msgs = Vec::new();
@@ -386,7 +401,14 @@ pub fn exec_serde(t: &[&str]) -> String {
     let reg = registry();
     let e = match reg.iter().find(|e| e.name == t[1]) { Some(e) => e, None => return "unknown-type".into() };
     let (_, payload) = split_at_sep(&t[2..]);
-    let (res, msgs) = if t[0] == "ser" { (e.ser)(payload) } else { let v = dec_value(&mut payload.iter().copied()); (e.de)(&v) };
+    let (res, mut msgs) = if t[0] == "ser" { (e.ser)(payload) } else { let v = dec_value(&mut payload.iter().copied()); (e.de)(&v) };
+    if t[0] != "ser" && SEQ_TUPLE_TYPES.contains(&t[1]) {
+        // C14: an improper list where a sequence or a tuple is expected is rejected
+        let v = dec_value(&mut payload.iter().copied());
+        if v.is_cons() && !v.is_list() && !res.starts_with("err") {
+            msgs.push(format!("FAIL C14 improper list accepted where a sequence or tuple ({}) is expected: {}", t[1], res));
+        }
+    }
     LAST_MSGS.with(|m| *m.borrow_mut() = msgs);
     res
 }
@@ -426,6 +448,16 @@ pub fn generate(family: &str, r: &mut Rng, count: usize, emit: &mut dyn FnMut(St
     let reg = registry();
     // standard-library and hand-written types outside the model's type universe (oracle only, see serde_extra.rs)
     if family == "serde" { for _ in 0..(count / 10).max(20) { emit(format!("serx {}", r.below(1_000_000_000))); } }
+    if family == "serde" {
+        // long flat data whose text is full of `()` tokens (None, unit, empty collections): no nesting at all
+        for n in [126usize, 127, 128, 300] {
+            for (name, item) in [("vec_opt", "N"), ("vec_vec_i32", "L0"), ("vec_string", "S")] {
+                if let Some(e) = reg.iter().find(|e| e.name == name) {
+                    emit(format!("ser {} {} ;; L{} {}", name, (e.ty)(), n, vec![item; n].join(" ")));
+                }
+            }
+        }
+    }
     for i in 0..count {
         let e = &reg[if i < reg.len() { i } else { r.below(reg.len()) }];
         let ty = (e.ty)();
